@@ -4,8 +4,8 @@
   * `parseBits fmt s`  = bit pattern of Rust's `s.parse::<f32/f64>()` (correctly rounded), or `none`
   * `printBits fmt b`  = Rust's `Display` of the float with bit pattern `b` (shortest digits that
     round-trip, closest to the value among the shortest, positional notation, no exponent).
-  Driver-side only: no theorem depends on this file. It is validated against Rust by the `codec`
-  differential on every run of the checks that use numbers.
+  It is validated against Rust by the `codec` differential on every run of the checks that use numbers, and
+  Lemmas/FloatCodecLaws*.lean prove `parseBits f (printBits f b) = some b` for every non-NaN pattern `b`.
 -/
 import RosuModel.Model.Num
 namespace Rosu
@@ -158,7 +158,10 @@ def shortestDigits (f : FloatFmt) (b : Nat) : Nat × Int :=
     if closed then cmpLo != .lt && cmpHi != .gt else cmpLo == .gt && cmpHi == .lt
   let rec go (n : Nat) (fuel : Nat) : Nat × Int :=
     match fuel with
-    | 0 => (m, e)   -- unreachable: 17 digits always suffice
+    | 0 =>
+      -- not reached in practice (17 digits always suffice; that is not proved and not needed): fall back to
+      -- the exact decimal expansion of v = m·2^e, which is trivially inside the rounding interval
+      if e ≥ 0 then (m * 2 ^ e.toNat, 0) else (m * 5 ^ (-e).toNat, e)
     | fuel + 1 =>
       let k : Int := log10v - (n - 1 : Nat)
       -- scaled = v / 10^k
